@@ -52,6 +52,7 @@ func Float(v any, defaults ...float64) (f float64) {
 			case string:
 				var err error
 				if f, err = strconv.ParseFloat(tv, 64); err != nil {
+					f = 0.0 // ParseFloat returns +-Inf together with a range error
 					if 0 < len(defaults) {
 						f = defaults[0]
 					}
